@@ -462,6 +462,41 @@ def check_payload_opaque(check, an: Analysis, rule: str):
             n_reads += 1
             if node.attr not in allowed:
                 bad = bad or ('%s:%d' % (fn.module.relpath, node.lineno), node.attr)
+    # ... nor by a helper the payload is handed to (`try_close(self.payload)`): there the
+    # parameter that receives it is read for `close` only, by attribute or by getattr
+    def _is_payload(node):
+        return (isinstance(node, ast.Attribute) and node.attr == 'payload') or (
+            isinstance(node, ast.Name) and node.id == 'payload')
+    helpers = set()
+    for fn in an.p.functions.values():
+        if fn.module.name.startswith('usim.py'):
+            continue
+        for node in ast.walk(fn.node):
+            if isinstance(node, ast.Call) and isinstance(node.func, ast.Name):
+                for pos, arg in enumerate(node.args):
+                    if not _is_payload(arg):
+                        continue
+                    for target in an.p.functions.values():
+                        if target.name == node.func.id and target.cls is None and \
+                                target.parent is None and \
+                                target.module is fn.module and \
+                                pos < len(target.node.args.args):
+                            helpers.add((target, target.node.args.args[pos].arg))
+    for target, param in sorted(helpers, key=lambda pair: pair[0].qn):
+        for node in ast.walk(target.node):
+            attr = None
+            if isinstance(node, ast.Attribute) and isinstance(node.value, ast.Name) and \
+                    node.value.id == param:
+                attr = node.attr
+            elif isinstance(node, ast.Call) and isinstance(node.func, ast.Name) and \
+                    node.func.id in ('getattr', 'hasattr') and len(node.args) >= 2 and \
+                    isinstance(node.args[0], ast.Name) and node.args[0].id == param:
+                attr = node.args[1].value if isinstance(node.args[1], ast.Constant) else '?'
+            if attr is None:
+                continue
+            n_reads += 1
+            if attr not in allowed:
+                bad = bad or ('%s:%d' % (target.module.relpath, node.lineno), attr)
     check.instance(rule, 'payload:opaque', bad is None, bad[0] if bad else 'usim/',
                    'no attribute of a task\'s payload is read (it may be any awaitable)%s '
                    '(%d attribute reads on payloads in the package)' % (
